@@ -429,6 +429,20 @@ def build():
     return [p.Product((s, 2)), p.Call(p.Variable("f"), (s, p.Power(x, 2))), p.CommonSubexpression(p.Quotient(x, y), "q"),
             c01.DecChild("n", "t"), c01.LegacyOnDec("n", "t"), c01.LegacyRoot(x, "s"), c01.LegacySub(x, "s", s),
             p.Sum((c01.LegacyRoot(s, "w"), 1)), p.Comparison(x, "<", p.NaN()), p.If(p.Comparison(x, "<", y), x, y)]
+def const_keys(reverse):
+    # persistent keys (pymbolic's walk mapper) of expressions holding equal-but-differently-written constants, computed in
+    # one order by the producer and in the opposite order by the consumer: a key may depend on structure only
+    import hashlib
+    from pymbolic.mapper.persistent_hash import PersistentHashWalkMapper
+    x = p.Variable("x")
+    consts = [("0.0", 0.0), ("-0.0", -0.0), ("1.0", 1.0), ("True", True), ("1", 1), ("(1+0j)", 1 + 0j), ("2.0", 2.0), ("2", 2), ("(2+0j)", 2 + 0j),
+              ("False", False), ("0", 0)]
+    out = {{}}
+    for name, c in (reversed(consts) if reverse else consts):
+        h = hashlib.sha256()
+        PersistentHashWalkMapper(h)(p.Sum((x, c)))
+        out[name] = h.hexdigest()
+    return out
 mode, fn = sys.argv[1], sys.argv[2]
 if mode == "produce":
     es = build()
@@ -436,10 +450,10 @@ if mode == "produce":
         hash(e)                      # hash before pickling
     ce = pymbolic.compile(es[0], ["x", "y"])
     from pytools.persistent_dict import KeyBuilder
-    pickle.dump((es, ce, [KeyBuilder()(e) for e in es[:4]]), open(fn, "wb"), protocol=int(sys.argv[3]))
+    pickle.dump((es, ce, [KeyBuilder()(e) for e in es[:4]], const_keys(False)), open(fn, "wb"), protocol=int(sys.argv[3]))
     print("produced")
 else:
-    es, ce, digests = pickle.load(open(fn, "rb"))
+    es, ce, digests, ckeys = pickle.load(open(fn, "rb"))
     mine = build()
     bad = []
     for a, b in zip(es, mine):
@@ -451,6 +465,10 @@ else:
         bad.append("persistent digests differ")
     if ce(3, 4) != 14:
         bad.append("compiled expression")
+    mine_keys = const_keys(True)
+    diff = [k for k in ckeys if ckeys[k] != mine_keys.get(k)]
+    if diff:
+        bad.append("persistent key depends on what this process keyed before: " + ", ".join(diff))
     print("BAD " + " ; ".join(bad) if bad else "GOOD")
 '''
 
